@@ -53,7 +53,7 @@ def h_detect(ctx):
     ctx.require("language-by-extension-case-insensitively-or-python-shebang", got == want, file=f.name, got=got, want=want)
 
 
-def _lint_as(name, content):
+def _lint_as(name, content, companion=None):
     import src.linter_config.ignore as ign
     from src.orchestrator.core import Orchestrator
     d = Path(tempfile.mkdtemp(prefix="c15x-"))
@@ -63,8 +63,13 @@ def _lint_as(name, content):
         (d / "src").mkdir()
         f = d / "src" / name
         f.write_text(content)
+        files = [f]
+        if companion is not None:
+            cname, ctext, first = companion
+            (d / "src" / cname).write_text(ctext)
+            files = [d / "src" / cname, f] if first else [f, d / "src" / cname]
         ign.clear_ignore_parser_cache()
-        return Orchestrator(project_root=d).lint_files([f])
+        return [v for v in Orchestrator(project_root=d).lint_files(files) if v.file_path == str(f)]
     finally:
         shutil.rmtree(d, True)
         ign.clear_ignore_parser_cache()
@@ -74,7 +79,13 @@ def h_cross_language(ctx):
     tname = ctx.pick("content_of", tuple(triggers.T))
     lang, rule_prefix, _line, text = triggers.T[tname]
     ext = ctx.pick("stored_as", (".py", ".ts", ".js", ".rs", ".java", ".go", ".txt", ".md", ".PY", ".Rs", ""))
-    vs = _lint_as("sample" + ext, text)
+    # another file with the same suffix in the same run (its language is decided by its own content / extension)
+    comp = ctx.pick("other_file_with_the_same_suffix", ("none", "python-script-before", "python-script-after", "plain-text-before"))
+    companion = None
+    if comp != "none":
+        ctext = ("#!/usr/bin/env python3\n" if comp.startswith("python-script") else "") + "def cost(q):\n    print(q)\n    return q * 5903\n"
+        companion = ("earlier" + ext, ctext, comp.endswith("before"))
+    vs = _lint_as("sample" + ext, text, companion)
     detected = {".py": "python", ".ts": "typescript", ".js": "javascript", ".rs": "rust", ".java": "java", ".go": "go"}.get(ext.lower(), "unknown")
     ids = sorted({v.rule_id for v in vs})
     ctx.note("detected", detected)
